@@ -135,7 +135,7 @@ fn tmsg_json(m: &str) -> Value {
     msg_json(m)
 }
 
-fn tres_json(r: Result<Option<usize>, &str>) -> Value {
+pub fn tres_json(r: Result<Option<usize>, &str>) -> Value {
     match r {
         Ok(v) => json!({"ok": v.map_or(-1i64, |x| x as i64).to_string()}),
         Err(m) => json!({"err": tmsg_json(m)}),
@@ -281,6 +281,7 @@ pub fn run(case: &Value) -> Vec<Value> {
                        "elapsed_ms": u64::try_from(el.as_millis()).unwrap_or(u64::MAX)})
             }
             "forced_cancel" => forced_cancel(),
+            "forced_stop" => forced_stop(),
             "running" => json!({"num": pools[p.expect("p")].get_running_size()}),
             "size" => json!({"num": pools[p.expect("p")].size()}),
             "state" => json!({"state": match pools[p.expect("p")].state() {
@@ -411,4 +412,65 @@ fn forced_cancel() -> Value {
     stop.store(true, Ordering::Release);
     let _ = sched_thread.join();
     out
+}
+
+/// C12, "a waiter for a task that will never run gets an error instead of blocking forever", with a
+/// waiter that really is blocked (another thread) while the pool is stopped in two attempts: the
+/// first `stop` runs out of time with a task parked, the second one succeeds. The waiter asks for a
+/// result that is not coming (it was handed out already); it must be told so when the pool stops.
+fn forced_stop() -> Value {
+    verif::set_virtual_clock(None);
+    let pool: &'static mut CoroutinePool<'static> =
+        Box::leak(Box::new(CoroutinePool::new("ocvstop".to_string(), 128 * 1024, 0, 4, 0)));
+    let gone = pool.submit_task(Some("ocvstop-gone".to_string()), |_| Some(1), None, None).expect("submit");
+    let _ = pool.try_timed_schedule_task(Duration::from_millis(20));
+    let taken = pool.try_take_task_result(gone).is_some();
+    let _ = pool
+        .submit_task(Some("ocvstop-parked".to_string()), |_| {
+            if let Some(s) = SchedulableSuspender::current() {
+                s.delay(Duration::from_millis(150));
+            }
+            Some(2)
+        }, None, None)
+        .expect("submit");
+    let _ = pool.try_timed_schedule_task(Duration::from_millis(10));
+    let pool_addr = std::ptr::from_ref::<CoroutinePool<'static>>(&*pool) as usize;
+    let (tx, rx) = std::sync::mpsc::channel::<()>();
+    let tx = std::sync::Mutex::new(tx);
+    verif::set_observer(Some(Box::new(move |name, a, _| {
+        if name == "wait_task_result:before_register" && a == gone {
+            let _ = tx.lock().expect("tx").send(());
+        }
+    })));
+    let waiter = std::thread::spawn(move || {
+        let pool = unsafe { &*(pool_addr as *const CoroutinePool<'static>) };
+        let r = match pool.wait_task_result(gone, Duration::from_millis(3000)) {
+            Ok(r) => json!({"val": tres_json(r)}),
+            Err(e) if e.kind() == std::io::ErrorKind::TimedOut => json!("timeout"),
+            Err(_) => json!("err"),
+        };
+        (r, std::time::Instant::now())
+    });
+    let registered = rx.recv_timeout(Duration::from_secs(2)).is_ok();
+    std::thread::sleep(Duration::from_millis(50));
+    let kind = |r: std::io::Result<()>| match r {
+        Ok(()) => "ok",
+        Err(e) if e.kind() == std::io::ErrorKind::TimedOut => "timeout",
+        Err(_) => "err",
+    };
+    let first = kind(pool.stop(Duration::ZERO));
+    std::thread::sleep(Duration::from_millis(200));
+    let second = kind(pool.stop(Duration::from_millis(1000)));
+    let stopped_at = std::time::Instant::now();
+    let state = match pool.state() {
+        PoolState::Running => "running",
+        PoolState::Stopping => "stopping",
+        PoolState::Stopped => "stopped",
+    };
+    let (r, back_at) = waiter.join().expect("waiter");
+    verif::set_observer(None);
+    let _ = take_log();
+    let late = back_at.saturating_duration_since(stopped_at);
+    json!({"forced_stop": {"taken": taken, "registered": registered, "first": first, "second": second, "state": state,
+           "wait": r, "late_ms": u64::try_from(late.as_millis()).unwrap_or(u64::MAX)}})
 }
